@@ -320,7 +320,30 @@ ARITY = {"load": (0, 1), "store": (1, 1), "swap": (1, 1), "fetch_add": (1, 1), "
 RMW = {"swap", "fetch_add", "fetch_sub", "compare_exchange", "compare_exchange_weak", "fetch_update"}
 
 
-def sem_sites(mod, fname, body, env, ord_consts):
+def lock_word_of(bodies):
+    """the atomic that is the lock word of a file: the receiver of most compare-exchange sites (ties: first seen);
+    found by what is done to it, not by its field name"""
+    score, order = {}, []
+    for body in bodies:
+        for m in SITE_RE.finditer(body):
+            if not m.group(1):
+                continue
+            recv = body[max(0, m.start() - 160):m.start()]
+            rm = re.search(r"self\s*\.\s*([a-z_][a-z_0-9]*)\s*$", recv)
+            if not rm:
+                continue
+            if rm.group(1) not in score:
+                score[rm.group(1)] = 0
+                order.append(rm.group(1))
+            if m.group(1).startswith("compare_exchange") or m.group(1) in ("fetch_sub", "fetch_update"):
+                score[rm.group(1)] += 1
+    if not order:
+        return None, []
+    lw = max(order, key=lambda k: (score[k], -order.index(k)))
+    return lw, [lw] + [k for k in order if k != lw]
+
+
+def sem_sites(mod, fname, body, env, ord_consts, lockword=None):
     lets = simple_lets(body)
     out = []
     for m in SITE_RE.finditer(body):
@@ -328,10 +351,10 @@ def sem_sites(mod, fname, body, env, ord_consts):
         args, _ = call_args(body, m.end() - 1)
         parts = split_args(args)
         recv = body[max(0, m.start() - 160):m.start()]
-        rm = re.search(r"self\s*\.\s*([a-z_]+)\s*$", recv)
+        rm = re.search(r"self\s*\.\s*([a-z_][a-z_0-9]*)\s*$", recv)
         rl = re.search(r"(?<![\w.])([a-z_][a-z_0-9]*)\s*$", recv)
         if m.group(2):
-            am = re.match(r"&?\s*self\s*\.\s*([a-z_]+)", parts[0]) if parts else None
+            am = re.match(r"&?\s*self\s*\.\s*([a-z_][a-z_0-9]*)", parts[0]) if parts else None
             loc = am.group(1) if am else "arg"
             vals = [resolve_operand(p, env, lets) for p in parts[1:]]
             ords = []
@@ -355,7 +378,7 @@ def sem_sites(mod, fname, body, env, ord_consts):
                 elif op.startswith("compare_exchange") and len(vals) == 2:
                     role = const_role(vals[1])
             elif mod == "rwlock" and op in RMW:
-                if loc != "state":
+                if loc != lockword:
                     role = "notify"
                 elif op == "fetch_sub":
                     role = "release"
@@ -473,7 +496,7 @@ def generate(repo=None):
         ("sync", "tiny-std/src/sync.rs"),
         ("futex", "rusl/src/futex.rs"),
     ]
-    tables, envs, srcs = {}, {}, {}
+    tables, envs, srcs, lock_locs = {}, {}, {}, {}
     for mod, rel in files:
         src = open(os.path.join(repo, rel)).read()
         srcs[mod] = src
@@ -481,8 +504,11 @@ def generate(repo=None):
         envs[mod] = env
         oc = ord_consts_of(src)
         sites = []
-        for name, body in functions(src):
-            sites += sem_sites(mod, name, body, env, oc)
+        fns = list(functions(src))
+        lockword, locs = lock_word_of([b for _, b in fns])
+        lock_locs[mod] = locs
+        for name, body in fns:
+            sites += sem_sites(mod, name, body, env, oc, lockword)
         tables[mod] = sites
     consts = envs["rwlock"]
     mspin = spin_budget(srcs["mutex"], envs["mutex"])
@@ -517,7 +543,7 @@ def generate(repo=None):
     lines += ["", "end TinyVerif.Gen.Sync", ""]
     write_if_changed(os.path.join(C.LEAN, "TinyVerif", "Gen", "SyncSites.lean"), "\n".join(lines))
     return {"tables": tables, "consts": consts, "extra": extra, "wait_private": wait_private, "wake_private": wake_private,
-            "key_understood": key_understood, "shape": shape_report(tables)}
+            "key_understood": key_understood, "shape": shape_report(tables), "lock_locs": lock_locs}
 
 
 # ---------------------------------------------------------------- run-time observation (written by c01.py / c02.py)
